@@ -3198,6 +3198,36 @@ impl WorldlineRuntime {
     }
 }
 
+#[cfg(feature = "echo_verif")]
+impl WorldlineRuntime {
+    /// Verification-only (H11): overwrite a worldline's frontier tick and/or
+    /// the global tick. Registration derives the frontier tick from history
+    /// length, so `WorldlineTick::MAX` / `GlobalTick::MAX` are unreachable from
+    /// outside; this door exists only to drive the two overflow pre-flight
+    /// failure kinds of a scheduler pass. Worldline state is left untouched.
+    ///
+    /// # Errors
+    ///
+    /// Returns [`RuntimeError::UnknownWorldline`] if the worldline is not
+    /// registered.
+    pub fn verif_force_ticks(
+        &mut self,
+        frontier: Option<(WorldlineId, WorldlineTick)>,
+        global_tick: Option<GlobalTick>,
+    ) -> Result<(), RuntimeError> {
+        if let Some((worldline_id, tick)) = frontier {
+            self.worldlines
+                .frontier_mut(&worldline_id)
+                .ok_or(RuntimeError::UnknownWorldline(worldline_id))?
+                .frontier_tick = tick;
+        }
+        if let Some(tick) = global_tick {
+            self.global_tick = tick;
+        }
+        Ok(())
+    }
+}
+
 fn receipt_correlation_current_basis(
     correlation: &ReceiptCorrelationRecord,
 ) -> (WorldlineId, WorldlineTick, Hash) {
